@@ -313,6 +313,10 @@ fn record<P: Prop>(p: &P, st: &mut Stats, case: &P::Case, ctx: &Ctx, out: &Outco
 fn run_shard<P: Prop>(p: &P, tier: Tier, seed: u64, shard: u32, cases: u32, findings: &Findings) -> Stats {
     let st = RefCell::new(Stats::default());
     let failed = std::cell::Cell::new(false);
+    // for failures that depend on what the library was asked BEFORE (state kept between calls):
+    // the case evaluated just before the first failing one, and the first failing case itself
+    let prev_case: RefCell<Option<P::Case>> = RefCell::new(None);
+    let first_fail: RefCell<Option<(Option<P::Case>, P::Case)>> = RefCell::new(None);
     if cases > 0 {
         let cfg = Config {
             cases,
@@ -342,10 +346,18 @@ fn run_shard<P: Prop>(p: &P, tier: Tier, seed: u64, shard: u32, cases: u32, find
                     }
                     match out {
                         Outcome::Fail(m) => {
+                            if !failed.get() {
+                                *first_fail.borrow_mut() = Some((prev_case.borrow().clone(), case.clone()));
+                            }
                             failed.set(true);
                             Err(TestCaseError::fail(m))
                         }
-                        _ => Ok(()),
+                        _ => {
+                            if !failed.get() {
+                                *prev_case.borrow_mut() = Some(case);
+                            }
+                            Ok(())
+                        }
                     }
                 }
             }
@@ -355,18 +367,46 @@ fn run_shard<P: Prop>(p: &P, tier: Tier, seed: u64, shard: u32, cases: u32, find
             Err(TestError::Fail(_reason, min_case)) => {
                 // re-evaluate the minimal case for the authoritative message
                 let mut ctx = Ctx::new(tier, findings, p.id(), false);
-                let message = match eval(p, &min_case, &mut ctx) {
-                    Eval::Out(Outcome::Fail(m)) => m,
-                    Eval::Out(o) => format!("(minimal case no longer fails on re-run: {o:?})"),
-                    Eval::HarnessBug(m) => format!("(harness panic on minimal case: {m})"),
-                };
-                st.borrow_mut().failures.push(Failure {
-                    shard,
-                    origin: format!("proptest shard {shard} (shrunk)"),
-                    message,
-                    case_json: serde_json::to_value(&min_case).unwrap_or(Value::Null),
-                    case_debug: format!("{min_case:?}"),
-                });
+                let reeval = eval(p, &min_case, &mut ctx);
+                if let Eval::Out(Outcome::Fail(m)) = reeval {
+                    st.borrow_mut().failures.push(Failure {
+                        shard,
+                        origin: format!("proptest shard {shard} (shrunk)"),
+                        message: m,
+                        case_json: serde_json::to_value(&min_case).unwrap_or(Value::Null),
+                        case_debug: format!("{min_case:?}"),
+                    });
+                } else {
+                    // The shrunk case passes when evaluated on its own: the failure depends on what was
+                    // evaluated before it (the library keeps state between calls). Report the original
+                    // failing case together with its predecessor as a two-step sequence.
+                    let (prev, orig) = first_fail.borrow().clone().unwrap_or((None, min_case.clone()));
+                    let mut seq: Vec<P::Case> = Vec::new();
+                    if let Some(pc) = prev {
+                        seq.push(pc);
+                    }
+                    seq.push(orig.clone());
+                    let mut msg = String::new();
+                    for c in &seq {
+                        let mut ctx = Ctx::new(tier, findings, p.id(), false);
+                        if let Eval::Out(Outcome::Fail(m)) = eval(p, c, &mut ctx) {
+                            msg = m;
+                        }
+                    }
+                    let reproduced = !msg.is_empty();
+                    let message = format!(
+                        "HISTORY-DEPENDENT failure: the failing case passes when evaluated on its own, i.e. the result depends on calls made before it (state kept between calls). {}{}",
+                        if reproduced { "Reproduced by evaluating the recorded sequence (previous case, then failing case): " } else { "NOT reproduced by replaying (previous case, failing case); the failure was observed once in this process: " },
+                        if reproduced { msg } else { _reason.to_string() }
+                    );
+                    st.borrow_mut().failures.push(Failure {
+                        shard,
+                        origin: format!("proptest shard {shard} (history-dependent, not shrunk)"),
+                        message,
+                        case_json: json!({ "sequence": seq.iter().map(|c| serde_json::to_value(c).unwrap_or(Value::Null)).collect::<Vec<_>>() }),
+                        case_debug: format!("{seq:?}"),
+                    });
+                }
             }
             Err(TestError::Abort(r)) => {
                 st.borrow_mut().harness_bugs.push(format!("proptest aborted: {r}"));
@@ -668,6 +708,23 @@ pub fn replay_prop<P: Prop>(p: &P, path: &str) -> i32 {
         }
     };
     let cv = if v.get("case").is_some() { v["case"].clone() } else { v };
+    if let Some(seq) = cv.get("sequence").and_then(|s| s.as_array()) {
+        // history-dependent failure: evaluate the recorded cases in order, in this one process
+        let mut worst = 0;
+        for (i, item) in seq.iter().enumerate() {
+            match serde_json::from_value::<P::Case>(item.clone()) {
+                Ok(c) => {
+                    println!("--- sequence step {i}");
+                    worst = worst.max(replay_case(p, &c, &findings));
+                }
+                Err(e) => {
+                    eprintln!("sequence step {i} does not decode: {e}");
+                    return 2;
+                }
+            }
+        }
+        return worst;
+    }
     let case: P::Case = match serde_json::from_value(cv) {
         Ok(c) => c,
         Err(e) => {
